@@ -12,6 +12,8 @@
                         SpaceGraph.get_mro; SpaceUpdater.{add_bases,remove_bases}
       core/parent.py    EditableParentImpl.{new_pandas,new_module} (912-948)
       core/space.py     UserSpaceImpl.{set_attr,del_attr,del_ref,on_inherit}
+      core/model.py     ModelImpl.del_attr, SpaceUpdater.del_defined_space, ReferenceManager.forget_ref
+                        (deleting a top-level space)
       core/system.py    System.{close_model,_check_sanity}
 
     Abstractions (all exercised by the tie):
@@ -33,11 +35,16 @@
                  the code deletes the spec (change_ref removes before it adds)
       update_bound update_pandas(old,new) with [new] already referenced: rejected here; the code
                  overwrites the table entry of [new]
-      scalar     new_pandas onto a cells name: rejected here; on a scalar cells the code stores the
-                 value in the cells and leaks the spec (only non-scalar cells are generated)
+      scalar     new_pandas onto a cells name: rejected here; on a scalar cells the code stored the
+                 value in the cells and leaked the spec (repaired; scalar and non-scalar cells are
+                 generated, both are [NewCells] here: a creation onto either is rejected)
       sheet_none spec.sheet = None in an excel file shared with other specs: rejected here; accepted by the code
-    Further recorded defects concern operations outside this vocabulary (deleting a space, absolute
-    paths, sheet '', reading back overridden references): see findings.d/C18.txt.
+      delspace   deleting a space forgets its defined references and, with the last reference of a
+                 value, its spec ([del_space]); the code kept both (repaired)
+      emptysheet the sheet name '' is the default sheet, like no sheet name: the emitter maps it to
+                 [None] in operations and observations; the code accepted it next to a named sheet (repaired)
+    Further recorded defects concern operations outside this vocabulary (absolute
+    paths, reading back overridden references): see findings.d/C18.txt.
     Operations on a closed model are rejected here; the code keeps a closed model fully operational
     (never generated). *)
 From Coq Require Import List NArith Bool Arith.
@@ -96,7 +103,7 @@ Record state := mkState {
   st_specs : list spec;                     (* IOManager.ios : (group, path) -> shared io -> specs *)
   st_spaces : list key;                     (* (model, space) *)
   st_bases : list (key * list N);           (* (model, space) -> ordered direct bases *)
-  st_cells : list (key * N);                (* ((model, space), name): defined non-scalar cells *)
+  st_cells : list (key * N);                (* ((model, space), name): defined cells, scalar or not *)
   st_closed : list N;
   st_next : N }.
 
@@ -383,7 +390,8 @@ Inductive op :=
 | Close (m : N)
 | SetSheet (m v : N) (sh : option N)       (* model.get_spec(value).sheet = sh *)
 | SetPath (m v p : N)                      (* model.get_spec(value).path = p : moves the whole shared file *)
-| DelSpec (m v : N).                       (* model.del_spec(value) *)
+| DelSpec (m v : N)                        (* model.del_spec(value) *)
+| DelSpace (m s : N).                      (* del model.<space s> *)
 
 Inductive outcome := ROk | RErr | RFuel.
 
@@ -522,6 +530,33 @@ Definition del_attr (fuel : nat) (st : state) (o : owner) (n : N) : res state :=
   | None => Err      (* derived (ValueError after re-derivation), cells (outside the vocabulary), unknown (KeyError) *)
   end.
 
+(** * deleting a top-level space: ModelImpl.del_attr -> SpaceUpdater.del_defined_space.
+    The defined references of the space are forgotten one by one exactly as ReferenceManager.del_ref
+    does ([rm_del_ref]: out of the table, and the spec of a value goes with its last reference);
+    the space, its cells and its inheritance edges disappear, so the references the sub spaces
+    derived from it disappear with it ([visible_ref] is recomputed from the graph).
+    Every former sub space must still have a linearisation. *)
+Definition in_space (m s : N) (r : ref) : bool := owner_eqb (r_own r) (m, Some s).
+
+Definition drop_space_graph (m s : N) (g : list (key * list N)) : list (key * list N) :=
+  map (fun e => if N.eqb (fst (fst e)) m
+                then (fst e, filter (fun x => negb (N.eqb x s)) (snd e)) else e)
+      (filter (fun e => negb (key_eqb (fst e) (m, s))) g).
+
+Definition del_space (fuel : nat) (st : state) (m s : N) : res state :=
+  bind (descendants fuel st (st_bases st) m s) (fun ds =>
+  let g := drop_space_graph m s (st_bases st) in
+  bind (map_res (mro fuel g m) ds) (fun _ =>
+  let st1 := fold_left rm_del_ref (filter (in_space m s) (st_refs st)) st in
+  Ok (with_graph st1 (filter (fun k => negb (key_eqb k (m, s))) (st_spaces st)) g
+                 (filter (fun c => negb (key_eqb (fst c) (m, s))) (st_cells st))))).
+
+(** [del model.name]: the space of that name, else the global reference of that name *)
+Definition del_model_attr (fuel : nat) (st : state) (m n : N) : res state :=
+  if is_closed st m then Err
+  else if is_space st m n then del_space fuel st m n
+  else del_attr fuel st (m, None) n.
+
 (** names of cells / references along the linearisation must stay disjoint (ideal; D13) *)
 Definition names_of_refs (st : state) (m : N) (l : list N) : list N :=
   map r_name (filter (fun r => match snd (r_own r) with
@@ -577,9 +612,13 @@ Definition new_cells (fuel : nat) (st : state) (m s n : N) : res state :=
   if is_closed st m then Err
   else if negb (is_space st m s) || negb (valid_name n) then Err
   else
+    (* SpaceManager._can_add: the name must be free in the space itself; a sub space may have it
+       as a cells (which then overrides the new one) but not as a reference *)
+    bind (has_name fuel st (st_bases st) m s n) (fun here =>
     bind (descendants fuel st (st_bases st) m s) (fun ds =>
-    bind (any_res (fun d => has_name fuel st (st_bases st) m d n) (s :: ds)) (fun clash =>
-    if clash then Err else Ok (with_graph st (st_spaces st) (st_bases st) (st_cells st ++ [((m, s), n)])))).
+    bind (any_res (fun d => has_ref fuel st (st_bases st) m d n) ds) (fun clash =>
+    if here || clash then Err
+    else Ok (with_graph st (st_spaces st) (st_bases st) (st_cells st ++ [((m, s), n)]))))).
 
 Definition step (fuel : nat) (st : state) (o : op) : state * outcome :=
   match o with
@@ -591,7 +630,10 @@ Definition step (fuel : nat) (st : state) (o : op) : state * outcome :=
       (* on an existing io _load_module either works (ModuleIO: add_spec then refuses) or raises (PandasIO) *)
       create fuel st ow n p KModule (fun k => match k with KModule => src_ok | _ => false end) None v
   | Assign ow n v => if is_closed st (fst ow) then (st, RErr) else finish st (set_attr fuel st ow n v)
-  | DelRef ow n => finish st (del_attr fuel st ow n)
+  | DelRef ow n => finish st (match snd ow with
+                              | None => del_model_attr fuel st (fst ow) n
+                              | Some _ => del_attr fuel st ow n
+                              end)
   | Update m old new vk => finish st (update st m old new vk)
   | AddBase m s b => finish st (add_base fuel st m s b)
   | RemoveBase m s b => finish st (remove_base fuel st m s b)
@@ -599,6 +641,7 @@ Definition step (fuel : nat) (st : state) (o : op) : state * outcome :=
   | SetSheet m v sh => finish st (set_sheet st m v sh)
   | SetPath m v p => finish st (set_path st m v p)
   | DelSpec m v => finish st (del_spec_op st m v)
+  | DelSpace m s => finish st (del_model_attr fuel st m s)
   end.
 
 Definition run (fuel : nat) (ops : list op) : state :=
